@@ -147,7 +147,7 @@ var Values = []Codec{
 	{
 		Name: "WireAddressDecMap",
 		Gen: func(r *rand.Rand, o gen.MsgOpts) any {
-			m := wire.AddressDecMap(gen.WireAddr(r))
+			m := wire.AddressDecMap(gen.WireAddrAny(r))
 			if r.Intn(10) == 0 {
 				m = wire.AddressDecMap{}
 			}
@@ -162,7 +162,7 @@ var Values = []Codec{
 			n := r.Intn(5)
 			a := make(wire.AddressMapArray, n)
 			for i := range a {
-				a[i] = gen.WireAddr(r)
+				a[i] = gen.WireAddrAny(r)
 			}
 			return &a
 		},
